@@ -409,3 +409,16 @@ Example ex_nsga_run :
   let r := run_events g (fun v => nth (Z.to_nat v) [2; 65; 128; 64]%Z 0%Z) [0; 1; 0; 1; 0; 1; 0; 1; 0; 1; 0]%Z in
   r_ok g r = true /\ length (fst (ev_g _ _ (r_st g r))) = 2%nat.
 Proof. vm_compute. auto. Qed.
+
+(* ---------------------------------------------------------------------------------------------- *)
+(* Deduping directly over Deduping is NOT recovered: both wrappers keep their key and their count of dropped
+   proposals in the same two metadata slots of the DNA, the outer one overwrites the inner one's.  Here the
+   innermost Evolution has made 4 proposals and comes back with 3. *)
+Definition ex_nested : alg :=
+  ADedup (ADedup (AEvo ASweep (Some 2) UNone [[0]; [1]; [2]; [3]; [4]; [5]; [0]; [1]]%Z) 2 0 1 100) 2 0 1 100.
+Theorem nested_deduping_not_recovered :
+  let g := denote 6 ex_nested in
+  let r := run_events g (fun _ => 1%Z) [0; 0; 1; 0]%Z in
+  recoverable ex_nested = false /\ r_ok g r = true /\
+  pview (obs g (recovered g (r_hist g r))) <> pview (obs g (r_st g r)).
+Proof. vm_compute. split; [reflexivity | split; [reflexivity | discriminate]]. Qed.
